@@ -195,11 +195,14 @@ StrictOutcomes(st, c) ==
 (* Observable and canonical views of the handle table.                     *)
 (***************************************************************************)
 \* what Stat on each handle shows (logged by the driver after every step)
+\* ... and where it stands: Seek(0, io.SeekCurrent) is asked of every open file after every step (directories
+\* excluded: their offsets are opaque), so that an offset gone wrong shows at once and not only at the next read
 HObs(st) ==
     [i \in DOMAIN st.h |->
-        IF ~st.h[i].open THEN [open |-> FALSE, k |-> "none", sz |-> 0, nl |-> 0, m |-> 0]
+        IF ~st.h[i].open THEN [open |-> FALSE, k |-> "none", sz |-> 0, nl |-> 0, m |-> 0, off |-> -1]
         ELSE LET inf == InfoOf(st, st.h[i].ino) IN
-             [open |-> TRUE, k |-> inf.k, sz |-> inf.sz, nl |-> inf.nl, m |-> inf.m]]
+             [open |-> TRUE, k |-> inf.k, sz |-> inf.sz, nl |-> inf.nl, m |-> inf.m,
+              off |-> IF st.h[i].dir THEN -1 ELSE st.h[i].off]]
 
 \* inode numbers are history dependent: identify an inode by its names, or by its content when unnamed
 HView(st) ==
